@@ -223,12 +223,12 @@ Proof.
   destruct (N.leb_spec 5 (rcap r)) as [_|L]; [|lia]. reflexivity.
 Qed.
 
-Lemma fill_connack : forall f w t fl,
+Lemma fill_connack_full : forall f w t fl,
   rdata (s_reader (w_sess w)) = [] -> rplen (s_reader (w_sess w)) = None -> 5 <= rcap (s_reader (w_sess w)) ->
   w_script w = [] -> w_inq w = [(t, connack_for fl)] -> t <= w_now w ->
   exists w4, fill_packet_reader (S (S (S (S f)))) None w = (w4, FillOk) /\
     w_sess w4 = set_reader (w_sess w) {| rcap := rcap (s_reader (w_sess w)); rdata := connack_for fl; rplen := Some 5 |} /\
-    w_now w4 = w_now w.
+    w_now w4 = w_now w /\ w_inq w4 = [] /\ w_script w4 = [].
 Proof.
   intros f w t fl Hd Hp Hc Hs Hi Ht.
   set (sp := if N.testbit fl 1 then 0 else 1). assert (Eck : connack_for fl = [32; 3; sp; 0; 0]) by reflexivity. rewrite Eck in *.
@@ -267,9 +267,21 @@ Proof.
   change (takeN 3 [sp; 0; 0]) with [sp; 0; 0] in S3. change (dropN 3 [sp; 0; 0]) with (@nil N) in I3.
   (* complete *)
   unfold fill_packet_reader. cbn [fill_go]. rewrite S3. cbn [set_reader s_reader]. unfold packet_available, commit. cbn [rplen rdata read_bytes]. rewrite D2.
-  change (5 <=? lenN ([32; 3] ++ [sp; 0; 0])) with true. cbv iota. eexists. split; [reflexivity|]. split; [|congruence].
+  change (5 <=? lenN ([32; 3] ++ [sp; 0; 0])) with true. cbv iota. eexists. split; [reflexivity|]. split; [|split; [congruence|split; [exact I3|exact C3]]].
   rewrite S3, S2, S1. unfold set_reader, commit. cbn [s_cfg s_client_id s_reader s_ob s_pid s_gen s_sp s_srv s_rt rcap rdata rplen].
   rewrite D2. reflexivity.
+Qed.
+
+
+Lemma fill_connack : forall f w t fl,
+  rdata (s_reader (w_sess w)) = [] -> rplen (s_reader (w_sess w)) = None -> 5 <= rcap (s_reader (w_sess w)) ->
+  w_script w = [] -> w_inq w = [(t, connack_for fl)] -> t <= w_now w ->
+  exists w4, fill_packet_reader (S (S (S (S f)))) None w = (w4, FillOk) /\
+    w_sess w4 = set_reader (w_sess w) {| rcap := rcap (s_reader (w_sess w)); rdata := connack_for fl; rplen := Some 5 |} /\
+    w_now w4 = w_now w.
+Proof.
+  intros f w t fl Hd Hp Hc Hs Hi Ht. destruct (fill_connack_full f w t fl Hd Hp Hc Hs Hi Ht) as [w4 [A [B [C _]]]].
+  exists w4. repeat split; assumption.
 Qed.
 
 (* ---------- connect() succeeds ---------- *)
